@@ -7,10 +7,12 @@
 // residual norm over the Krylov space, non-increasing in k;  (c) finite termination within n (+ceil(n/s) for IDR(s),
 // +L-1 for BiCGStab(L), which advances L steps at a time) iterations with the exact or the identity preconditioner.
 //
-// Tolerances.  u = 2^-53.  Iterates: |x_k - x_k^ref| <= C_X u kappa2(A) kappa2(M) (k+1) max_j<=k |x_j|  +  C_T |x_k^ref(double) - x_k^ref(long double)|,
-// the second term being the measured sensitivity of the k-th iterate to rounding (the same textbook recurrence run in
+// Tolerances.  u = 2^-53.  Iterates: |x_k - x_k^ref| <= C_X u kappa2(A) kappa2(M) (k+1) max_j<=k |x_j|  +  C_T max_j<=k |x_j^ref(double) - x_j^ref(long double)|,
+// the second term being the measured sensitivity of the iterates to rounding (the same textbook recurrence run in
 // double): BiCGStab near a small (r^,v) or GMRES close to an invariant subspace amplify rounding by factors that no
-// a-priori kappa bound covers.  A wrong coefficient changes x_k by O(|x_k - x_0|), many orders above either term.
+// a-priori kappa bound covers, and once amplified, different rounding patterns diverge exponentially, so iterates are
+// compared only while the measured divergence is below 1e-12 max|x_j| (the tolerance then stays below ~1e-8 relative).
+// A wrong coefficient changes x_k by O(|x_k - x_0|), many orders above either term.
 #pragma once
 #include <complex>
 #include <amgcl/backend/builtin.hpp>
@@ -100,12 +102,14 @@ struct Case {
 };
 
 template <class V>
-double kappa2(const std::vector<V> &a, int n) {
-    Eigen::Matrix<std::complex<double>, Eigen::Dynamic, Eigen::Dynamic> E(n, n);
+double kappa2(const std::vector<V> &a, int n) { // sqrt(lambda_max / lambda_min) of A^H A: relative accuracy ~ kappa^2 u, ample for kappa <= 100
+    typedef Eigen::Matrix<std::complex<double>, Eigen::Dynamic, Eigen::Dynamic> EMc;
+    EMc E(n, n);
     for (int i = 0; i < n; ++i) for (int j = 0; j < n; ++j) E(i, j) = a[static_cast<size_t>(i) * n + j];
-    Eigen::JacobiSVD<Eigen::Matrix<std::complex<double>, Eigen::Dynamic, Eigen::Dynamic>> svd(E);
-    double smin = svd.singularValues()(n - 1);
-    return smin > 0 ? svd.singularValues()(0) / smin : 1e300;
+    EMc G = E.adjoint() * E;
+    Eigen::SelfAdjointEigenSolver<EMc> es(G, Eigen::EigenvaluesOnly);
+    double lo = es.eigenvalues()(0), hi = es.eigenvalues()(n - 1);
+    return lo > 0 ? std::sqrt(hi / lo) : 1e300;
 }
 
 // value helpers that work for both real and complex V
@@ -286,6 +290,7 @@ std::string describe_case(const Case<V> &c) {
     return os.str();
 }
 
+template <class V> bool complex_nonhermitian(const Case<V> &c) { return VT<V>::complex && !(c.hpd && c.pkind == 0); }
 // returns true when the case is inside the domain; labels the conditioning
 template <class V>
 bool in_domain(const Case<V> &c, Ctx &ctx) {
@@ -294,6 +299,7 @@ bool in_domain(const Case<V> &c, Ctx &ctx) {
     ctx.label(std::string("precond:") + Case<V>::pname(c.pkind));
     ctx.label(c.kappaA <= 3 ? "kappa<=3" : c.kappaA <= 10 ? "kappa<=10" : c.kappaA <= 30 ? "kappa<=30" : c.kappaA <= 100 ? "kappa<=100" : "kappa>100");
     ctx.label(c.n <= 3 ? "n<=3" : c.n <= 10 ? "n<=10" : c.n <= 25 ? "n<=25" : "n<=40");
+    if (VT<V>::complex) ctx.label(complex_nonhermitian(c) ? "complex:non-hermitian-operator" : "complex:hermitian+identity");
     if (!(c.kappaA <= 100)) { ctx.excluded = "domain:kappa2(A)>100"; return false; } // never expected: the construction bounds kappa
     return true;
 }
@@ -387,7 +393,8 @@ struct Calib {
 static Calib calib;
 
 static const double C_X = 64.0;   // (x8 for complex arithmetic) multiplies u * kappa2(A) * kappa2(M) * (k+1) * max|x_j|
-static const double C_T = 256.0;  // multiplies the measured double-vs-long-double divergence of the reference recurrence
+static const double C_T = 1e4;    // multiplies the measured double-vs-long-double divergence of the reference recurrence
+static const double SENS_CUT = 1e-12; // iterates are compared while that divergence stays below SENS_CUT * max|x_j| (tolerance <= ~1e-8 relative)
 static const double SUBSPACE_EPS = 1e-9; // k counts as "inside the Krylov subspace" while |r_{k-1}| > SUBSPACE_EPS |r_0|
 
 // compare the amgcl iterate with the reference trace.
@@ -399,11 +406,17 @@ int compare_iterate(const Case<V> &c, const std::string &what, int k, const Out<
     if (!(tr.rn[k - 1] > SUBSPACE_EPS * tr.rn[0])) return 0;
     long double xmax = 0;
     for (int j = 0; j <= k; ++j) xmax = std::max(xmax, ref::nrm2(tr.x[j]));
-    long double sens = dist2(tr.x[k], tw.x[k]);
+    // measured rounding sensitivity: largest divergence so far between the textbook recurrence run in double and in long double
+    long double sens = 0;
+    for (int j = 1; j <= k; ++j) sens = std::max(sens, dist2(tr.x[j], tw.x[j]));
+    // once the recurrence itself has amplified rounding by more than ~1e4 (BiCGStab near a breakdown) different
+    // rounding patterns diverge exponentially and later iterates are no longer comparable: stop, nothing asserted from here on
+    if (sens > SENS_CUT * xmax) return 0;
     long double base = U * c.kappaA * c.kappaM * (k + 1) * xmax;
     long double tol = (VT<V>::complex ? 8 : 1) * C_X * base + C_T * sens;
     long double err = dist(o.x, tr.x[k]);
     long double step = dist2(tr.x[k], tr.x[0]);
+    if (getenv("C05_TRACE")) fprintf(stderr, "TRACE %s k=%d err=%.3Lg sens=%.3Lg base=%.3Lg xmax=%.3Lg step=%.3Lg\n", what.c_str(), k, err, sens, base, xmax, step);
     calib.see(what + ":err/(u kA kM (k+1) xmax)", static_cast<double>(err / base));
     calib.see(what + ":err/tol", static_cast<double>(err / tol));
     VF_REQUIRE(o.iters == static_cast<size_t>(k), what << ": maxiter=" << k << " but the solver reports " << o.iters << " iterations");
@@ -428,16 +441,14 @@ struct Count {
 // preconditioner kinds, identity/Jacobi/random twice as likely as exact (which converges in one step)
 inline int pick_precond(Tape &t) { static const int kinds[] = {0, 2, 3, 1, 0, 2, 3}; return kinds[t.u(0, 6)]; }
 
-// Known finding (see known/): for complex value types the GMRES family uses plane rotations that are not unitary
-// (cs = 1/sqrt(1 + t*t) with t complex), so from k = 2 on the computed update is not the least-squares minimiser.  It
-// coincides with the textbook method whenever the Hessenberg matrix is real: real value type, or Hermitian matrix with
-// the identity preconditioner.  (BiCGStab had its complex coefficients conjugated; fixed in /repo by 07c1c61,
-// regression: replay/C05/bicgstab-complex-conj*.case.)
-template <class V> bool complex_nonhermitian(const Case<V> &c) { return VT<V>::complex && !(c.hpd && c.pkind == 0); }
-// family / preconditioner choice of the non-symmetric solvers; the complex TU draws the Hermitian + identity corner
-// (where the complex code paths are asserted for every k) more often
-template <class V> int pick_family(Tape &t) { return t.chance(VT<V>::complex ? 2 : 1, 4) ? 0 : 1; }
-template <class V> int pick_precond_ns(Tape &t, const Case<V> &c) { if (VT<V>::complex && c.hpd && t.b()) return 0; return pick_precond(t); }
+// Regressions (replay/C05/): complex BiCGStab used conjugated coefficients (fixed in /repo by 07c1c61), IDR(s) a conjugated
+// omega / smoothing gamma (ca77d68), the GMRES family non-unitary complex plane rotations (e99f835), BiCGStab(L >= 2) a
+// symmetric instead of Hermitian Gram matrix (2aa2d99).  All of them coincided with the textbook methods whenever every
+// inner product is real (real value type, or Hermitian matrix with the identity preconditioner), which is why the complex
+// translation units draw non-Hermitian and preconditioned complex systems most of the time.
+// family / preconditioner choice of the non-symmetric solvers
+template <class V> int pick_family(Tape &t) { return t.chance(1, 4) ? 0 : 1; }
+template <class V> int pick_precond_ns(Tape &t, const Case<V> &) { return pick_precond(t); }
 
 template <class P> void zero_tol(P &p, size_t k) { p.maxiter = k; p.tol = 0; p.abstol = 0; }
 
@@ -549,7 +560,6 @@ void prop_gmres(Tape &t, Ctx &ctx) {
     bool moved = false; Count cnt; bool restarted = false;
     double prev = -1;
     for (int k = 1; k <= K; ++k) {
-        if (k >= 2 && complex_nonhermitian(c) && ctx.known("F-gmres-complex-givens")) return; // k = 1 (a single rotation) is asserted in every case
         Out<V> o;
         switch (variant) {
         case 0: case 1: { typedef amgcl::solver::gmres<B> Sv; typename Sv::params sp; zero_tol(sp, k); sp.M = M; sp.pside = left ? amgcl::preconditioner::side::left : amgcl::preconditioner::side::right; o = run_amgcl<Sv>(c, sp); break; }
@@ -610,7 +620,7 @@ void prop_richardson(Tape &t, Ctx &ctx) {
 
 // ================================================================= finite termination
 // With the exact or the identity preconditioner every method reaches the solution (true relative residual <= 1e-8)
-// within n iterations (+ceil(n/s) for IDR(s); BiCGStab(L) advances L steps per sweep, so it needs ceil(n/L) L <= n+L-1).
+// within n iterations (+ceil(n/s) for IDR(s); BiCGStab(L) advances L steps per sweep, so its bound is ceil(n/L) L <= n+L-1).
 // The restart length of the GMRES family is n (restarted GMRES(M<n) has no finite-termination property).
 // The solver is asked for tol = 1e-10 (so that it stops when it has converged instead of iterating on rounding noise)
 // and the TRUE residual, computed in long double from the CSR arrays, must be <= 1e-8.
@@ -623,7 +633,11 @@ void prop_richardson(Tape &t, Ctx &ctx) {
 // mu = lambda_min((A+A^H)/2)/sigma_max(A) >= 0.05.  For these three methods the non-Hermitian family is therefore
 // restricted by construction to mu >= 0.1 ("positive real" matrices), the bound itself is asserted on the library's own
 // templates instantiated for long double (finite termination is a statement about exact arithmetic; rounding 5e-20
-// instead of 1e-16, same data), and in double precision two extra iterations are allowed for rounding.
+// instead of 1e-16, same data), and in double precision two extra iterations (BiCGStab(L): one extra sweep of L steps)
+// are allowed for rounding.  On this domain
+// no real case (0 of 5000) needed more than the bound in either precision; complex BiCGStab needed one extra iteration
+// once in about 3000 cases (n = 10, eigenvalues on an arc of a circle, both precisions behave alike: the moment problem
+// behind a bi-orthogonal method is ill-conditioned independently of kappa2), so the complex long-double stage also gets +2.
 template <class V>
 void prop_fterm(Tape &t, Ctx &ctx) {
     typedef amgcl::backend::builtin<V> B;
@@ -647,17 +661,14 @@ void prop_fterm(Tape &t, Ctx &ctx) {
     int Kaug = static_cast<int>(t.u(0, 3));
     bool smoothing = t.chance(1, 4), replacement = t.chance(1, 4), om0 = t.chance(1, 4); // IDR(s) options
     bool convex = t.b();                                                                 // BiCGStab(L) option
-    if (method == 2) { bound = n + L - 1; par << " L=" << L << " convex=" << convex << " side=" << (left ? "left" : "right"); }
+    if (method == 2) { bound = ((n + L - 1) / L) * L; par << " L=" << L << " convex=" << convex << " side=" << (left ? "left" : "right"); }
     if (method == 6) { bound = n + (n + s - 1) / s; par << " s=" << s << " smoothing=" << smoothing << " replacement=" << replacement << " omega=" << (om0 ? 0.0 : 0.7); }
     if (method == 1 || method == 3 || method == 5) par << " side=" << (left ? "left" : "right");
     ctx.desc << "finite-termination " << mn[method] << par.str() << " bound=" << bound << " " << describe_case(c);
     if (!in_domain(c, ctx)) return;
     ctx.label(std::string("method:") + mn[method]);
-    // Known finding: IDR(s) computes omega = (s^H t)/(t^H t) = conj of the minimal-residual value for complex data, so the
-    // "minimal residual" step amplifies components whose eigenvalue has a non-zero phase; in floating point the finite
-    // termination is then lost for n ~ 20 (witness known/C05-idrs-complex-omega-conj.case: n = 21, kappa2 = 1.19, s = 1).
-    if (method == 6 && complex_nonhermitian(c) && ctx.known("F-idrs-complex-omega-conj")) return;
-    int maxit = shortrec ? bound + 2 : bound;
+    const int slack = method == 2 ? L : 2; // BiCGStab(L) advances L steps per sweep: its smallest possible slack is one more sweep
+    int maxit = shortrec ? bound + slack : bound;
     auto prep = [&](auto &sp, int mi) { sp.maxiter = mi; sp.tol = 1e-10; sp.abstol = 0; };
     Out<V> o;
     switch (method) {
@@ -682,35 +693,65 @@ void prop_fterm(Tape &t, Ctx &ctx) {
         calib.see(std::string("fterm-") + mn[method] + " " + kb + " " + Case<V>::pname(c.pkind) + ":iters-bound+100", 100 + static_cast<double>(o.iters) - bound); // (iterations until the solver's own 1e-10 test fires)
         calib.see(std::string("fterm-") + mn[method] + ":relres", static_cast<double>(rr));
     }
-    VF_REQUIRE(static_cast<int>(o.iters) <= maxit, mn[method] << ": " << o.iters << " iterations reported with maxiter=" << maxit);
-    VF_REQUIRE(rr <= 1e-8L, mn[method] << par.str() << ": true relative residual " << static_cast<double>(rr) << " after " << o.iters << " iterations (allowed " << maxit
+    const bool need_mode = calib.on && getenv("C05_NEED");
+    if (need_mode && !shortrec) return;
+    if (!need_mode) VF_REQUIRE(static_cast<int>(o.iters) <= maxit, mn[method] << ": " << o.iters << " iterations reported with maxiter=" << maxit);
+    if (!need_mode) VF_REQUIRE(rr <= 1e-8L, mn[method] << par.str() << ": true relative residual " << static_cast<double>(rr) << " after " << o.iters << " iterations (allowed " << maxit
                << ", bound " << bound << " for n=" << n << "), initial " << static_cast<double>(r0) << ", reported " << o.resid);
     if (!shortrec) return;
     if (static_cast<int>(o.iters) > bound) ctx.label(std::string("double-needs-more-than-bound:") + mn[method]);
     // the library's recurrences in extended precision: the bound itself
     typedef typename VT<V>::S X;
     Out<X> ox;
+    const int xbound = bound + (VT<V>::complex ? slack : 0);
     switch (method) {
-    case 1: ox = run_amgcl_ext<amgcl::solver::bicgstab>(c, [&](auto &sp) { prep(sp, bound); sp.pside = side; }); break;
-    case 2: ox = run_amgcl_ext<amgcl::solver::bicgstabl>(c, [&](auto &sp) { prep(sp, bound); sp.L = L; sp.pside = side; sp.convex = convex; }); break;
-    default: ox = run_amgcl_ext<amgcl::solver::idrs>(c, [&](auto &sp) { prep(sp, bound); sp.s = s; sp.smoothing = smoothing; sp.replacement = replacement; sp.omega = om0 ? 0.0 : 0.7; }); break;
+    case 1: ox = run_amgcl_ext<amgcl::solver::bicgstab>(c, [&](auto &sp) { prep(sp, xbound); sp.pside = side; }); break;
+    case 2: ox = run_amgcl_ext<amgcl::solver::bicgstabl>(c, [&](auto &sp) { prep(sp, xbound); sp.L = L; sp.pside = side; sp.convex = convex; }); break;
+    default: ox = run_amgcl_ext<amgcl::solver::idrs>(c, [&](auto &sp) { prep(sp, xbound); sp.s = s; sp.smoothing = smoothing; sp.replacement = replacement; sp.omega = om0 ? 0.0 : 0.7; }); break;
     }
     long double rx = true_relres(c.A, std::vector<X>(c.bd.begin(), c.bd.end()), ox.x);
     if (calib.on) calib.see(std::string("fterm-ext-") + mn[method] + ":relres", static_cast<double>(rx));
-    VF_REQUIRE(static_cast<int>(ox.iters) <= bound, mn[method] << " (long double): " << ox.iters << " iterations reported with maxiter=" << bound);
+    if (need_mode) { // calibration: smallest j such that maxiter = bound + j reaches 1e-8 (long double templates / double)
+        int need = -1, needd = -1;
+        for (int j = 0; j <= 40 && need < 0; ++j) {
+            Out<X> oj;
+            switch (method) {
+            case 1: oj = run_amgcl_ext<amgcl::solver::bicgstab>(c, [&](auto &sp) { prep(sp, bound + j); sp.pside = side; }); break;
+            case 2: oj = run_amgcl_ext<amgcl::solver::bicgstabl>(c, [&](auto &sp) { prep(sp, bound + j); sp.L = L; sp.pside = side; sp.convex = convex; }); break;
+            default: oj = run_amgcl_ext<amgcl::solver::idrs>(c, [&](auto &sp) { prep(sp, bound + j); sp.s = s; sp.smoothing = smoothing; sp.replacement = replacement; sp.omega = om0 ? 0.0 : 0.7; }); break;
+            }
+            if (true_relres(c.A, std::vector<X>(c.bd.begin(), c.bd.end()), oj.x) <= 1e-8L) need = j;
+        }
+        for (int j = 0; j <= 40 && needd < 0; ++j) {
+            Out<V> oj;
+            switch (method) {
+            case 1: { typedef amgcl::solver::bicgstab<B> Sv; typename Sv::params sp; prep(sp, bound + j); sp.pside = side; oj = run_amgcl<Sv>(c, sp); break; }
+            case 2: { typedef amgcl::solver::bicgstabl<B> Sv; typename Sv::params sp; prep(sp, bound + j); sp.L = L; sp.pside = side; sp.convex = convex; oj = run_amgcl<Sv>(c, sp); break; }
+            default: { typedef amgcl::solver::idrs<B> Sv; typename Sv::params sp; prep(sp, bound + j); sp.s = s; sp.smoothing = smoothing; sp.replacement = replacement; sp.omega = om0 ? 0.0 : 0.7; oj = run_amgcl<Sv>(c, sp); break; }
+            }
+            if (true_relres(c.A, c.b, oj.x) <= 1e-8L) needd = j;
+        }
+        fprintf(stderr, "NEED %s ext=%d dbl=%d n=%d L=%d s=%d kappa=%.1f %s %s\n", mn[method], need, needd, n, L, s, c.kappaA, c.fam.c_str(), Case<V>::pname(c.pkind));
+        return;
+    }
+    VF_REQUIRE(static_cast<int>(ox.iters) <= xbound, mn[method] << " (long double): " << ox.iters << " iterations reported with maxiter=" << xbound);
     VF_REQUIRE(rx <= 1e-8L, mn[method] << par.str() << " (library templates in long double): true relative residual " << static_cast<double>(rx) << " after " << ox.iters
-               << " iterations (bound " << bound << " for n=" << n << "), initial " << static_cast<double>(r0) << ", reported " << ox.resid);
+               << " iterations (allowed " << xbound << ", bound " << bound << " for n=" << n << "), initial " << static_cast<double>(r0) << ", reported " << ox.resid);
 }
 
+// The iterate props and the finite-termination prop live in separate translation units (compile time).
 template <class V>
-std::vector<Prop> props(const std::string &sfx) {
+std::vector<Prop> props_iter(const std::string &sfx) {
     return {
         Prop("cg_" + sfx, prop_cg<V>, 150, 1500, 100, 40, {1}, 2, 8),
         Prop("bicgstab_" + sfx, prop_bicgstab<V>, 150, 1500, 100, 40, {1}, 2, 8),
         Prop("gmres_" + sfx, prop_gmres<V>, 200, 2000, 100, 40, {1}, 2, 8),
         Prop("richardson_" + sfx, prop_richardson<V>, 150, 1500, 100, 40, {1}, 1, 4),
-        Prop("fterm_" + sfx, prop_fterm<V>, 400, 4000, 100, 40, {1}, 2, 8),
     };
+}
+template <class V>
+std::vector<Prop> props_fterm(const std::string &sfx) {
+    return { Prop("fterm_" + sfx, prop_fterm<V>, 400, 4000, 100, 40, {1}, 2, 8) };
 }
 
 } // namespace c05
